@@ -16,7 +16,11 @@ import (
 func init() { subcmds["free"] = freeMain }
 
 type freeCase struct {
-	Pool         *pooldrv.FreeCase  `json:"pool"`
+	Pool *pooldrv.FreeCase `json:"pool"`
+	// several requests on one client, one after the other (the scenario fields above are then unused)
+	Session []lifecycle.Scenario `json:"session"`
+	// per request of a session: "" | "cancel" | "close"
+	SessionEnv   []string           `json:"sessionEnv"`
 	Scenario     lifecycle.Scenario `json:"scenario"`
 	ForeignClose bool               `json:"foreignClose"`
 	Cancel       bool               `json:"cancel"`
@@ -83,6 +87,36 @@ func freeMain(args []string) error {
 						return
 					}
 					tw.Emit(ev)
+					return
+				}
+				if len(c.Session) > 0 {
+					var fos []lifecycle.FreeOpts
+					for i := range c.Session {
+						fo := lifecycle.FreeOpts{Seed: c.Seed*1000 + int64(k)*10 + int64(i), PingAfter: true}
+						if i < len(c.SessionEnv) {
+							fo.Cancel = c.SessionEnv[i] == "cancel"
+							fo.ForeignClose = c.SessionEnv[i] == "close"
+						}
+						fos = append(fos, fo)
+					}
+					evs, err := lifecycle.RunFreeSession(c.Session, fos)
+					if err != nil {
+						emu.Lock()
+						if firstErr == nil {
+							firstErr = fmt.Errorf("session %s: %w", c.Session[0].ID, err)
+						}
+						emu.Unlock()
+						return
+					}
+					// the lines of one session stay together
+					emu.Lock()
+					for i, ev := range evs {
+						ev["foreignCloseAsked"] = fos[i].ForeignClose
+						ev["cancelAsked"] = fos[i].Cancel
+						ev["session"] = fmt.Sprintf("%s#%d", c.Session[0].ID, k)
+						tw.Emit(ev)
+					}
+					emu.Unlock()
 					return
 				}
 				ev, err := lifecycle.RunFree(c.Scenario, lifecycle.FreeOpts{ForeignClose: c.ForeignClose, Cancel: c.Cancel, Seed: c.Seed*1000 + int64(k), PingAfter: k%2 == 0,
